@@ -2,32 +2,153 @@
   Props.C05 — `_id` is a primary key: unique, generated when absent, immutable.
   Statements only; proofs in Proofs/C05*.lean.  The model is `MongoModel.step` (Ops.lean),
   tied to mongomock by the history correspondence of harness/props/c05.py.
+
+  DOMAIN.  The model's value universe `Val` contains association lists with duplicate keys
+  (`.doc [("a", 1), ("a", 2)]`), which no Python `dict` can be; on those, Python `==` as modelled
+  (`pyEq`) is neither reflexive nor symmetric, and the invariant genuinely fails
+  (`step_inv_full_fails`, `reachable_inv_full_fails`, `id_immutable_full_fails`).  The invariant
+  theorems are therefore `_partial`: they assume `GoodColl` (Spec/StoreInv.lean) of the states
+  involved.  `GoodColl` holds for scalar, empty and single-field embedded `_id`s with dict-shaped
+  stored documents (`scalar_symm`, `symm_doc_empty`, `symm_doc_single`).  Multi-field embedded
+  `_id`s (`{a: 1, b: 2}`) are NOT covered by these theorems: they are covered by the
+  correspondence run and the direct oracle only (named scope limit `embedded-id-multifield`).
 -/
 import Proofs.C05
 
 namespace MongoModel.Props.C05
 open MongoModel MongoModel.Spec
 
+/-! ### Python `==` on the value universe -/
+
+/-- Python `==` as modelled is transitive on the WHOLE value universe, duplicate-key association
+    lists included (it is reflexivity and symmetry that fail there). -/
+theorem pyEq_trans (a b c : Val) (h1 : pyEq a b = true) (h2 : pyEq b c = true) : pyEq a c = true :=
+  Proofs.C05Lemmas.pyEq_trans a b c h1 h2
+
+/-- `==` is symmetric on every scalar `_id` (null, bool, numbers, strings, dates, ObjectIds) —
+    against every value of the universe, duplicate-key association lists included. -/
+theorem scalar_symm (v : Val) (h : isScalar v = true) : SymmVal v := Proofs.C05.scalar_symm v h
+
+/-- `==` is reflexive on every scalar. -/
+theorem scalar_refl (v : Val) (h : isScalar v = true) : pyEq v v = true := Proofs.C05.scalar_refl v h
+
+/-- The empty embedded `_id` `{}` is `SymmVal`. -/
+theorem symm_doc_empty : SymmVal (.doc []) := Proofs.C05Lemmas.symm_doc_empty
+
+/-- A single-field embedded `_id` `{k: v}` is `SymmVal` when `v` is.  This does NOT extend to two
+    fields: `pyEq {a:1, a:1} {a:1, b:2} = true` but `pyEq {a:1, b:2} {a:1, a:1} = false`, because the
+    universe contains duplicate-key association lists (no Python dict); hence the scope limit
+    `embedded-id-multifield`. -/
+theorem symm_doc_single (k : String) (v : Val) (hv : SymmVal v) : SymmVal (.doc [(k, v)]) :=
+  Proofs.C05Lemmas.symm_doc_single k v hv
+
+/-- `SymmVal` is closed under `==`: whatever `_id` an update computes from a `SymmVal` one and
+    accepts as "unchanged" is `SymmVal` again — the update operators need no hypothesis. -/
+theorem symm_closed (a b : Val) (ha : SymmVal a) (h : pyEq a b = true) : SymmVal b :=
+  Proofs.C05Lemmas.symm_closed ha h
+
+/-! ### groundwork for the scope limit `embedded-id-multifield`
+
+On hereditarily well-formed values (`wfVal`, Spec/StoreInv.lean: every document at every depth
+has pairwise distinct keys — exactly the values Python dicts and lists can be) `==` IS reflexive
+and symmetric.  These two lemmas are not used by the theorems above (which would additionally
+need `wfVal` to be preserved by every update operator); they are what a later extension of the
+domain to multi-field embedded `_id`s needs. -/
+
+/-- `==` is reflexive on well-formed values (duplicate-key association lists excluded). -/
+theorem pyEq_refl_wf (v : Val) (h : wfVal v = true) : pyEq v v = true :=
+  Proofs.C05Lemmas.pyEq_refl_wf v h
+
+/-- `==` is symmetric between well-formed values (duplicate-key association lists excluded). -/
+theorem pyEq_symm_wf (a b : Val) (ha : wfVal a = true) (hb : wfVal b = true) :
+    pyEq a b = pyEq b a :=
+  Proofs.C05Lemmas.pyEq_symm_wf a b ha hb
+
+/-- `wfVal` accepts a multi-field embedded `_id` and rejects a duplicate-key association list -/
+example : wfVal (.doc [("a", .int 1), ("b", .doc [("c", .int 2), ("d", .arr [.doc []])])]) = true ∧
+    wfVal (.doc [("a", .int 1), ("b", .doc [("c", .int 2), ("c", .int 3)])]) = false := by
+  decide +kernel
+
+/-! ### the invariant -/
+
 /-- The empty collection satisfies the invariant. -/
 theorem init_inv : IdInv ({} : Coll) := Proofs.C05.init_inv
 
-/-- Every operation — successful or rejected, of any kind, at any clock — preserves it. -/
-theorem step_inv (cfg : Cfg) (s : St) (op : Val) (h : IdInv s.c) : IdInv (step cfg s op).1.c :=
-  Proofs.C05.step_inv cfg s op h
+/-- The unrestricted statement: every operation preserves the invariant, whatever the values. -/
+def step_inv_full : Prop :=
+  ∀ (cfg : Cfg) (s : St) (op : Val), IdInv s.c → IdInv (step cfg s op).1.c
+
+/-- The unrestricted statement is FALSE in the model: the value universe contains association
+    lists with duplicate keys (no Python dict can be one), and `insert_one {_id: {a:1, a:2}}`
+    stores a document under a key that is not `==` to itself. -/
+theorem step_inv_full_fails : ¬ step_inv_full := Proofs.C05Cex.step_inv_false
+
+/-- Every operation — successful or rejected, of any kind, at any clock — preserves the
+    invariant, PROVIDED the entries before and after are well-behaved (`GoodColl`: `==` symmetric
+    and reflexive on the store keys, dict-shaped documents).  Excluded: duplicate-key association
+    lists as `_id` (not Python values) and multi-field embedded `_id`s, which are covered by the
+    correspondence run and the direct oracle only (scope limit `embedded-id-multifield`). -/
+theorem step_inv_partial (cfg : Cfg) (s : St) (op : Val) (h : IdInv s.c)
+    (hg : GoodColl s.c) (hg' : GoodColl (step cfg s op).1.c) : IdInv (step cfg s op).1.c :=
+  Proofs.C05.step_inv_alt cfg s op h hg hg'
+
+/-- `step_inv_partial` with exactly what is used: `SymmVal` keys and dict-shaped documents
+    before the operation, keys `==` to themselves after it.  Same exclusions
+    (duplicate-key association lists; scope limit `embedded-id-multifield`). -/
+theorem step_inv_fine (cfg : Cfg) (s : St) (op : Val) (h : IdInv s.c)
+    (hs : ∀ p ∈ s.c.docs, SymmVal p.1 ∧ ∃ fs, p.2 = .doc fs ∧ (dkeys fs).Nodup)
+    (hr : ∀ p ∈ (step cfg s op).1.c.docs, pyEq p.1 p.1 = true) :
+    IdInv (step cfg s op).1.c :=
+  Proofs.C05.step_inv_fine cfg s op h hs hr
+
+/-- The unrestricted statement: the invariant holds in every reachable state. -/
+def reachable_inv_full : Prop := ∀ (cfg : Cfg) (ops : List Val), IdInv (run cfg ops).2.c
+
+/-- The unrestricted statement is FALSE in the model, for the same reason as
+    `step_inv_full_fails` (a one-operation history inserting `{_id: {a:1, a:2}}`, a
+    duplicate-key association list that no Python dict can be).  Worse histories exist on such
+    values: `Proofs.C05Cex.ops3` reaches a state with two documents holding the same `_id`. -/
+theorem reachable_inv_full_fails : ¬ reachable_inv_full := Proofs.C05Cex.reachable_inv_false
 
 /-- **In every reachable state** (any history of any length from the empty collection) no two
-    store keys are equal and every document sits under its own `_id`. -/
-theorem reachable_inv (cfg : Cfg) (ops : List Val) : IdInv (run cfg ops).2.c :=
-  Proofs.C05.reachable_inv cfg ops
+    store keys are equal and every document sits under its own `_id`, PROVIDED every state along
+    the history holds well-behaved entries only (`GoodColl`).  The hypothesis is on the states,
+    not the operations, because an upserted document is computed by the update operators.
+    Excluded: duplicate-key association lists (not Python values) and multi-field embedded
+    `_id`s (correspondence run and direct oracle only; scope limit `embedded-id-multifield`). -/
+theorem reachable_inv_partial (cfg : Cfg) (ops : List Val)
+    (hg : ∀ n, GoodColl (run cfg (ops.take n)).2.c) : IdInv (run cfg ops).2.c :=
+  Proofs.C05.reachable_inv_alt cfg ops hg
+
+/-- For a concrete history the hypothesis of `reachable_inv_partial` can be discharged by
+    evaluation: every state along it has scalar store keys and dict-shaped documents (`goodB`;
+    this decidable test is narrower than `GoodColl`: it also rejects the empty and single-field
+    embedded `_id`s). -/
+theorem reachable_inv_check (cfg : Cfg) (ops : List Val)
+    (h : (List.range (ops.length + 1)).all
+      (fun n => (run cfg (ops.take n)).2.c.docs.all goodB) = true) :
+    IdInv (run cfg ops).2.c :=
+  Proofs.C05.reachable_inv_check cfg ops h
+
+/-- non-vacuity of `reachable_inv_partial`: inserts (one rejected as a duplicate, `1 == 1.0`; one
+    with a generated `_id`), a multi-update, an update that changes the numeric type of an `_id`
+    (accepted: `1 == 1.0`), an upsert, a delete -/
+example : IdInv (run {} [
+    .arr [.str "insert_one", .doc [("_id", .int 1), ("a", .int 1)]],
+    .arr [.str "insert_one", .doc [("_id", .dbl 1 0)]],
+    .arr [.str "insert_one", .doc [("a", .int 2)]],
+    .arr [.str "insert_one", .doc [("_id", .str "k"), ("a", .int 2)]],
+    .arr [.str "update_many", .doc [("a", .int 2)], .doc [("$set", .doc [("b", .int 7)])], .bool false],
+    .arr [.str "update_one", .doc [("_id", .int 1)], .doc [("$set", .doc [("_id", .dbl 1 0)])], .bool false],
+    .arr [.str "update_one", .doc [("_id", .int 5)], .doc [("$set", .doc [("b", .int 1)])], .bool true],
+    .arr [.str "delete_one", .doc [("_id", .str "k")]]]).2.c :=
+  reachable_inv_check _ _ (by decide +kernel)
 
 /-- Hence no two stored documents have equal `_id`s (for keys on which `==` is symmetric). -/
 theorem ids_distinct (c : Coll) (h : IdInv c) (hs : ∀ p ∈ c.docs, SymmVal p.1) :
     c.docs.Pairwise (fun a b => ∀ ia ib, idOf a.2 = some ia → idOf b.2 = some ib →
       pyEq ia ib = false) :=
   Proofs.C05.ids_distinct c h hs
-
-/-- `==` is symmetric on every scalar `_id` (null, bool, numbers, strings, dates, ObjectIds). -/
-theorem scalar_symm (v : Val) (h : isScalar v = true) : SymmVal v := Proofs.C05.scalar_symm v h
 
 /-- non-vacuity: a reachable state with three documents, one of them with an embedded `_id`,
     after a rejected duplicate insert -/
@@ -36,6 +157,8 @@ example : ((run {} [
     .arr [.str "insert_one", .doc [("_id", .doc [("k", .int 1)])]],
     .arr [.str "insert_one", .doc [("_id", .dbl 1 0)]],
     .arr [.str "insert_one", .doc [("a", .int 2)]]]).2.c.docs.length) = 3 := by decide +kernel
+
+/-! ### insertion -/
 
 /-- An insert whose `_id` is already a key is rejected with DuplicateKeyError and the collection
     is exactly what the expiry pass alone leaves. -/
@@ -55,14 +178,36 @@ theorem insert_fresh (now : Int) (c c' : Coll) (d id : Val) (hn : c.ttlIndexes =
        | v => v))] :=
   Proofs.C05.insert_fresh now c c' d id hn h
 
+/-! ### immutability -/
+
+/-- The unrestricted statement: after any update every document is an old one under the same
+    key with an `==` `_id`, or the upserted one — for ANY collection and values. -/
+def id_immutable_full : Prop :=
+  ∀ (cfg : Cfg) (now : Int) (c c' : Coll) (f u : Val) (upsert multi : Bool) (r : R UpdateResult),
+    applyUpdateColl cfg now c f u upsert multi = (c', r) →
+    ∀ p' ∈ c'.docs,
+      (∃ p ∈ c.docs, p.1 = p'.1 ∧ pyEqOpt (idOf p.2) (idOf p'.2) = true) ∨
+      (∃ res id, r = .ok res ∧ res.upserted = some id ∧ p'.1 = id)
+
+/-- The unrestricted statement is FALSE in the model: an untouched document whose `_id` is the
+    duplicate-key association list `{a:1, a:2}` (no Python dict can be one) has an `_id` that is
+    not `==` to itself. -/
+theorem id_immutable_full_fails : ¬ id_immutable_full := Proofs.C05Cex.id_immutable_false
+
 /-- **`_id` is immutable**: after any update / replacement / upsert (successful or rejected),
     every document of the collection is either a document that was there before, under the same
-    key and with an equal `_id`, or the one document the upsert inserted. -/
-theorem id_immutable (cfg : Cfg) (now : Int) (c c' : Coll) (f u : Val) (upsert multi : Bool)
-    (r : R UpdateResult) (h : applyUpdateColl cfg now c f u upsert multi = (c', r)) :
+    key and with an equal `_id`, or the one document the upsert inserted — PROVIDED the
+    collection satisfies the invariant, its store keys are `SymmVal` and its documents are
+    dict-shaped.  Excluded: duplicate-key association lists (not Python values) and multi-field
+    embedded `_id`s (correspondence run and direct oracle only; scope limit
+    `embedded-id-multifield`). -/
+theorem id_immutable_partial (cfg : Cfg) (now : Int) (c c' : Coll) (f u : Val) (upsert multi : Bool)
+    (r : R UpdateResult) (h : applyUpdateColl cfg now c f u upsert multi = (c', r))
+    (hi : IdInv c)
+    (hs : ∀ p ∈ c.docs, SymmVal p.1 ∧ ∃ fs, p.2 = .doc fs ∧ (dkeys fs).Nodup) :
     ∀ p' ∈ c'.docs,
       (∃ p ∈ c.docs, p.1 = p'.1 ∧ pyEqOpt (idOf p.2) (idOf p'.2) = true) ∨
       (∃ res id, r = .ok res ∧ res.upserted = some id ∧ p'.1 = id) :=
-  Proofs.C05.id_immutable cfg now c c' f u upsert multi r h
+  Proofs.C05.id_immutable_alt cfg now c c' f u upsert multi r h hi hs
 
 end MongoModel.Props.C05
